@@ -947,6 +947,64 @@ def same_instant_cases():
     return [(ann_of(s), s, v) for s, v in out], [(ann_of(s), s, v) for s, v in singles]
 
 
+def typeddict_shape_cases(rng, full: bool):
+    """Valid values that OMIT non-required members.  TypedDict shapes of harness/c03_typeddicts.py (per-key Required /
+    NotRequired, total=True/False, inheritance; real / __future__ / quoted annotations; typing / typing_extensions
+    qualifiers), every subset of the optional keys present or absent, at the root and nested in list / dict / Optional /
+    fixed tuple / dataclass (default omitted) / TypedDict / NamedTuple holders.  Which keys are required is read off
+    the shape description here, not from the class objects.  Yields (module name, ann, spec, value, replay)."""
+    import c03_typeddicts as T
+    sample = {"int": [1, 0], "str": ["s", "null"], "float": [1.5, -0.0]}
+    n = 0
+    for shape in T.SHAPES:
+        by = {nm: (base, total, fs) for nm, base, total, fs in T.SHAPES[shape]}
+
+        def keys_of(nm):
+            base, total, fs = by[nm]
+            inherited = keys_of(base) if base else []
+            tot = True if total is None else total
+            return inherited + [(k, t, (q == "Required") or (q is None and tot)) for k, q, t in fs]
+        for style in T.STYLES:
+            for qual in T.QUALS:
+                for name in by:
+                    n += 1
+                    src = T.module_source(shape, style, qual, name)
+                    modname = f"verif_c01_td_{n}"
+                    mod = impl.new_module(modname, src)
+                    try:
+                        keys = keys_of(name)
+                        optional = [k for k, _, r in keys if not r]
+                        subsets = [[]]
+                        for k in optional:
+                            subsets += [x + [k] for x in subsets]
+                        full_v = lambda i=0: {k: sample[t][i] for k, t, _ in keys}
+                        for present in subsets:
+                            v = {k: x for k, x in full_v(rng.randrange(2)).items()
+                                 if k in present or k not in optional}
+                            vfull = full_v()
+                            places = [
+                                (name, v),
+                                (f"list[{name}]", [vfull, v]),
+                                (f"dict[str, {name}]", {"k": v}),
+                                (f"typing.Optional[{name}]", v),
+                                (f"tuple[{name}, int]", (v, 3)),
+                                ("HolderDC", ("HolderDC", {"t": v})),
+                                ("HolderTD", {"inner": v, "many": [vfull, v]}),
+                                ("HolderNT", ("HolderNT", {"t": v})),
+                            ]
+                            if not full:
+                                places = places[:1] + rng.sample(places[1:], 3)
+                            for ann_src, val in places:
+                                ann = eval(ann_src, mod.__dict__)
+                                if isinstance(val, tuple) and len(val) == 2 and isinstance(val[0], str) and val[0].startswith("Holder"):
+                                    val = getattr(mod, val[0])(**val[1])
+                                spec = spec_of_ann(ann)
+                                yield (modname, ann, spec, val,
+                                       {"module_source": src, "type": ann_src, "value": value_expr(val)})
+                    finally:
+                        impl.drop_module(modname)
+
+
 def adv_module():
     name = "verif_c01_adv"
     import sys
@@ -1487,6 +1545,9 @@ def search(run: lib.Run, broken):
     finally:
         _CLEAR[0] = True
         impl.clear_caches()
+    # valid values that omit non-required members (TypedDict shapes x annotation styles x positions)
+    for modname, ann, spec, v, rp in typeddict_shape_cases(rng, hard):
+        push(check_value(ann, spec, v, stats, {"source": "typeddict-optional-keys-omitted", "replay": rp}))
     # adversarial pools
     for ann, spec, v in adv_class_cases(rng, run.budget(4, 25)):
         push(check_value(ann, spec, v, stats, {"source": "structured-flavours"}))
@@ -1519,7 +1580,8 @@ def search(run: lib.Run, broken):
         size = len(f.get("value", "")) + len(f.get("type", ""))
         if k not in best or size < best[k][0]:
             best[k] = (size, f)
-    out = [v[1] for v in sorted(best.values(), key=lambda x: x[0])]
+    # failures whose replay file can be re-run on its own come first
+    out = [v[1] for v in sorted(best.values(), key=lambda x: ("replay_note" in x[1], x[0]))]
     run.search_stats["oracle"] = {
         "evaluations": stats["evaluations"], "distinct_nontrivial": stats["roundtrip_ok"] + stats["fixpoint_ok"],
         "roundtrip_ok": stats["roundtrip_ok"], "ambiguous_unions": stats["ambiguous"], "fixpoint_ok": stats["fixpoint_ok"],
@@ -1560,6 +1622,15 @@ def replay(payload):
             _CLEAR[0] = True
             impl.clear_caches()
         return {"fails": False}
+    if "module_source" in rp and "type" in rp:
+        mod = impl.new_module("verif_c01_replay_mod", rp["module_source"])
+        try:
+            ann = eval(rp["type"], mod.__dict__)
+            v = eval(rp["value"], mod.__dict__)
+            f = check_value(ann, spec_of_ann(ann), v, collections.Counter(), {"source": "replay"})
+        finally:
+            impl.drop_module("verif_c01_replay_mod")
+        return {"fails": f is not None, "failure": f}
     if "type" in rp and "value" in rp and "tdesc" not in payload:
         try:
             ann, spec, v = eval_case(rp)
